@@ -41,7 +41,7 @@ Proof.
   - destruct (N.eqb c' TOKEN); [destruct fl'|]; discriminate.
   - destruct (N.eqb c TOKEN); [destruct fl|]; discriminate.
   - destruct (N.eqb_spec c TOKEN) as [->|Hc], (N.eqb_spec c' TOKEN) as [->|Hc'].
-    + destruct fl, fl'; intros [= _ H]; f_equal; eauto.
+    + destruct fl, fl'; intros H; inversion H; f_equal; eauto.
     + destruct fl; discriminate.
     + destruct fl'; discriminate.
     + intros [= -> H]. f_equal. eauto.
@@ -97,17 +97,17 @@ Lemma pick_unique_best (hs : list hit) h :
   pick hs = Some h.
 Proof.
   induction hs as [|h1 hs IH]; intros Hin Hbest; [destruct Hin|]. simpl.
-  destruct (Hbest h1 (or_introl eq_refl)) as [->|Hb1].
+  assert (Hb' : forall b, pick hs = Some b -> b = h \/ betterb (hpat h) (hpat b) = true).
+  { intros b Ep. apply Hbest. right. eapply pick_in; eauto. }
+  destruct Hin as [->|Hin].
   - destruct (pick hs) as [b|] eqn:Ep; [|reflexivity].
-    destruct (Hbest b (or_intror (pick_in _ _ Ep))) as [->|Hb].
-    + now destruct (betterb _ _).
-    + unfold hpat in Hb. now rewrite (betterb_asym _ _ Hb).
-  - destruct Hin as [->|Hin].
-    + destruct (pick hs) as [b|] eqn:Ep; [|reflexivity].
-      destruct (Hbest b (or_intror (pick_in _ _ Ep))) as [->|Hb].
-      * now destruct (betterb _ _).
-      * unfold hpat in Hb. now rewrite (betterb_asym _ _ Hb).
-    + rewrite IH; auto. unfold hpat in Hb1. now rewrite Hb1.
+    destruct (Hb' b eq_refl) as [->|Hb].
+    + destruct (betterb _ _); reflexivity.
+    + unfold hpat in Hb. rewrite (betterb_asym _ _ Hb). reflexivity.
+  - rewrite (IH Hin (fun h' H' => Hbest h' (or_intror H'))).
+    destruct (Hbest h1 (or_introl eq_refl)) as [->|Hb1].
+    + destruct (betterb _ _); reflexivity.
+    + unfold hpat in Hb1. rewrite Hb1. reflexivity.
 Qed.
 End Pick.
 
@@ -241,3 +241,345 @@ Proof.
     + intros E. now rewrite (A E).
     + intros n0 E Hd. now rewrite (B n0 E Hd).
 Qed.
+
+(* ------------------------------------------------------------------ *)
+(* association lists, the heap                                          *)
+(* ------------------------------------------------------------------ *)
+Lemma al_get_set {B} (l : list (str * B)) k v k' :
+  al_get (al_set l k v) k' = if str_eqb k k' then Some v else al_get l k'.
+Proof.
+  induction l as [|[k0 v0] l IH]; simpl.
+  - destruct (str_eqb_spec k k'); reflexivity.
+  - destruct (str_eqb_spec k0 k) as [->|Hn]; simpl.
+    + destruct (str_eqb_spec k k'); reflexivity.
+    + destruct (str_eqb_spec k0 k') as [->|Hk].
+      * destruct (str_eqb_spec k k'); [congruence | reflexivity].
+      * exact IH.
+Qed.
+
+Lemma al_keys_set {B} (l : list (str * B)) k v :
+  al_get l k = None -> map fst (al_set l k v) = map fst l ++ [k].
+Proof.
+  induction l as [|[k0 v0] l IH]; simpl; [reflexivity|].
+  destruct (str_eqb_spec k0 k) as [->|Hn]; [discriminate|]. intros H. simpl. now rewrite IH.
+Qed.
+
+Lemma al_get_in {B} (l : list (str * B)) k v : al_get l k = Some v -> In (k, v) l.
+Proof.
+  induction l as [|[k0 v0] l IH]; simpl; [discriminate|].
+  destruct (str_eqb_spec k0 k) as [->|Hn]; [intros [= ->]; now left | intros H; right; auto].
+Qed.
+
+Lemma al_in_get {B} (l : list (str * B)) k v : NoDup (map fst l) -> In (k, v) l -> al_get l k = Some v.
+Proof.
+  induction l as [|[k0 v0] l IH]; simpl; intros Hnd Hin; [destruct Hin|].
+  inversion Hnd as [|? ? Hn Hd]; subst. destruct Hin as [[= -> ->]|Hin].
+  - now rewrite str_eqb_refl.
+  - destruct (str_eqb_spec k0 k) as [->|Hne]; [|auto].
+    exfalso. apply Hn. apply in_map_iff. exists (k, v). auto.
+Qed.
+
+Lemma al_get_none_notin {B} (l : list (str * B)) k : al_get l k = None -> ~ In k (map fst l).
+Proof.
+  induction l as [|[k0 v0] l IH]; simpl; [tauto|].
+  destruct (str_eqb_spec k0 k) as [->|Hn]; [discriminate|]. intros H [E|E]; [congruence | now apply IH].
+Qed.
+
+Lemma nth_error_heap_set h : forall d r d',
+  nth_error (heap_set h d r) d' =
+  if Nat.eqb d d' then match nth_error h d with Some _ => Some r | None => None end else nth_error h d'.
+Proof.
+  induction h as [|x h IH]; intros d r d'.
+  - simpl. destruct d, d'; simpl; try reflexivity; destruct (Nat.eqb _ _); reflexivity.
+  - destruct d as [|d], d' as [|d']; simpl; try reflexivity. apply IH.
+Qed.
+
+(* ------------------------------------------------------------------ *)
+(* the invariant tying tree, heap and the routes index                  *)
+(* ------------------------------------------------------------------ *)
+Definition entry_of (p : str) (d : rid) (rt : route) : entry :=
+  (fpat p (r_filters rt), (d, r_names rt)).
+
+Record Inv (R : router) : Prop := {
+  inv_wf : wf (tree R);
+  inv_paths : forall e, In e (paths (tree R)) <->
+                        exists p d rt, al_get (routes R) p = Some d /\ nth_error (heap R) d = Some rt /\
+                                       e = entry_of p d rt;
+  inv_routes : forall p d, al_get (routes R) p = Some d ->
+                           exists rt, nth_error (heap R) d = Some rt /\ r_pattern rt = p /\
+                                      ntok p = length (r_filters rt);
+  inv_nodup : NoDup (map fst (routes R))
+}.
+
+Lemma Inv0 : Inv router0.
+Proof.
+  constructor; simpl.
+  - constructor; constructor.
+  - intros e. split; [intros [] | intros (p & d & rt & H & _); discriminate].
+  - intros p d H. discriminate.
+  - constructor.
+Qed.
+
+Definition core (rt : route) := (r_pattern rt, r_names rt, r_filters rt).
+
+(* edits of method tables / names / hook index leave the invariant alone *)
+Lemma Inv_same_core R R' :
+  Inv R -> tree R' = tree R -> routes R' = routes R ->
+  (forall d, option_map core (nth_error (heap R') d) = option_map core (nth_error (heap R) d)) ->
+  Inv R'.
+Proof.
+  intros [I1 I2 I3 I4] Ht Hr Hh.
+  assert (Hc : forall d rt', nth_error (heap R') d = Some rt' ->
+                             exists rt, nth_error (heap R) d = Some rt /\ core rt = core rt').
+  { intros d rt' E. specialize (Hh d). rewrite E in Hh. simpl in Hh.
+    destruct (nth_error (heap R) d) as [rt|]; [|discriminate]. simpl in Hh.
+    exists rt. split; [reflexivity | congruence]. }
+  assert (Hc' : forall d rt, nth_error (heap R) d = Some rt ->
+                             exists rt', nth_error (heap R') d = Some rt' /\ core rt = core rt').
+  { intros d rt E. specialize (Hh d). rewrite E in Hh. simpl in Hh.
+    destruct (nth_error (heap R') d) as [rt'|]; [|discriminate]. simpl in Hh.
+    exists rt'. split; [reflexivity | congruence]. }
+  constructor; rewrite ?Ht, ?Hr; auto.
+  - intros e. rewrite I2. split; intros (p & d & rt & A & B & C).
+    + destruct (Hc' d rt B) as (rt' & B' & Hcore). exists p, d, rt'. split; [exact A|]. split; [exact B'|].
+      unfold entry_of, core in *. injection Hcore as _ E2 E3. now rewrite <- E2, <- E3.
+    + destruct (Hc d rt B) as (rt0 & B' & Hcore). exists p, d, rt0. split; [exact A|]. split; [exact B'|].
+      unfold entry_of, core in *. injection Hcore as _ E2 E3. now rewrite E2, E3.
+  - intros p d A. destruct (I3 p d A) as (rt & B & C & D). destruct (Hc' d rt B) as (rt' & B' & Hcore).
+    exists rt'. unfold core in Hcore. injection Hcore as E1 E2 E3. rewrite <- E1, <- E3. auto.
+Qed.
+
+Lemma core_set_methods rt t : core (set_methods rt t) = core rt.
+Proof. reflexivity. Qed.
+
+Lemma Inv_heap_set R d rt t nmd hk :
+  Inv R -> nth_error (heap R) d = Some rt ->
+  Inv (mkRouter (tree R) (heap_set (heap R) d (set_methods rt t)) (routes R) nmd hk).
+Proof.
+  intros HI E. apply (Inv_same_core R); auto. intros d'. simpl. rewrite nth_error_heap_set.
+  destruct (Nat.eqb_spec d d') as [->|Hne]; [|reflexivity]. now rewrite E.
+Qed.
+
+(* the registration part of _add: reuse or insert *)
+Lemma Inv_add_found R rule pattern nm flts :
+  Inv R -> ntok pattern = length flts ->
+  match (match rt_match R pattern flts with
+         | Some d => inl (R, d)
+         | None =>
+           let d := length (heap R) in
+           match set_at (tree R) pattern flts 0 (IData d) nm with
+           | SErr e => inr e
+           | SOk t' => inl (mkRouter t' (heap R ++ [mkRoute rule pattern nm flts []])
+                                     (al_set (routes R) pattern d) (named R) (hooks_idx R), d)
+           end
+         end) with
+  | inl (R1, _) => Inv R1
+  | inr _ => True
+  end.
+Proof.
+  intros HI Hn. destruct (rt_match R pattern flts) as [d|] eqn:Em; [exact HI|].
+  cbv zeta. destruct (set_at (tree R) pattern flts 0 (IData (length (heap R))) nm) as [t'|e] eqn:Es; [|exact I].
+  destruct HI as [I1 I2 I3 I4].
+  (* the pattern is not in the index yet *)
+  assert (K : al_get (routes R) pattern = None).
+  { destruct (al_get (routes R) pattern) as [d0|] eqn:Ek; [|reflexivity]. exfalso.
+    destruct (I3 pattern d0 Ek) as (rt0 & B & C & D).
+    assert (Hin : In (entry_of pattern d0 rt0) (paths (tree R))) by (apply I2; exists pattern, d0, rt0; auto).
+    destruct (tmatch_complete (tree R) I1 pattern (r_filters rt0) (d0, r_names rt0) flts 0 Hin) as [(n0 & E1 & E2 & _)|E];
+      [lia | |].
+    - unfold rt_match in Em. rewrite E1 in Em. simpl in E2. congruence.
+    - destruct (set_at_sim (tree R) pattern flts 0 (length (heap R)) nm) as (A & _). rewrite (A E) in Es. discriminate. }
+  set (d := length (heap R)) in *. set (new := mkRoute rule pattern nm flts []).
+  assert (Hold : forall d' rt', nth_error (heap R) d' = Some rt' -> nth_error (heap R ++ [new]) d' = Some rt').
+  { intros d' rt' E. rewrite nth_error_app1; [exact E|]. apply nth_error_Some. congruence. }
+  assert (Hnew : nth_error (heap R ++ [new]) d = Some new).
+  { unfold d. rewrite nth_error_app2 by lia. now rewrite Nat.sub_diag. }
+  constructor; simpl.
+  - eapply wf_insert; eauto. lia.
+  - intros e. rewrite (insert_paths (tree R) pattern flts (IData d) nm t' I1) by (auto; lia). simpl. split.
+    + intros [[<-|[]]|Hin].
+      * exists pattern, d, new. rewrite al_get_set, str_eqb_refl. split; [reflexivity|]. split; [exact Hnew|].
+        unfold entry_of, pre. simpl. now rewrite app_nil_r.
+      * apply I2 in Hin. destruct Hin as (p & d0 & rt0 & A & B & C). exists p, d0, rt0.
+        rewrite al_get_set. destruct (str_eqb_spec pattern p) as [->|Hne]; [congruence|].
+        split; [exact A|]. split; [now apply Hold | exact C].
+    + intros (p & d0 & rt0 & A & B & C). rewrite al_get_set in A.
+      destruct (str_eqb_spec pattern p) as [<-|Hne].
+      * injection A as <-. rewrite Hnew in B. injection B as <-. left. left. subst e.
+        unfold entry_of, pre. simpl. now rewrite app_nil_r.
+      * right. apply I2. destruct (I3 p d0 A) as (rt1 & B1 & _). rewrite (Hold _ _ B1) in B.
+        injection B as <-. exists p, d0, rt1. auto.
+  - intros p d0 A. rewrite al_get_set in A. destruct (str_eqb_spec pattern p) as [<-|Hne].
+    + injection A as <-. exists new. auto.
+    + destruct (I3 p d0 A) as (rt1 & B1 & C). exists rt1. split; [now apply Hold | exact C].
+  - rewrite (al_keys_set _ _ _ K). clear - I4 K. apply al_get_none_notin in K.
+    induction (map fst (routes R)) as [|x l IH]; simpl.
+    + constructor; [intros [] | constructor].
+    + inversion I4; subst. constructor.
+      * rewrite in_app_iff. simpl. intros [H|[H|[]]]; [auto | apply K; now left].
+      * apply IH; auto. intros H. apply K. now right.
+Qed.
+
+Lemma Inv_rt_add R rule pattern nm flts ms h name ow :
+  Inv R -> ntok pattern = length flts ->
+  Inv (fst (rt_add R rule pattern nm flts ms h name ow)).
+Proof.
+  intros HI Hn. pose proof (Inv_add_found R rule pattern nm flts HI Hn) as Hf. unfold rt_add.
+  destruct (match rt_match R pattern flts with Some d => inl (R, d) | None => _ end) as [[R1 d]|e]; [|exact HI].
+  destruct (nth_error (heap R1) d) as [rt|] eqn:E; [|exact Hf].
+  destruct (if ow then Some _ else mt_add _ _ _) as [t'|]; [|exact Hf].
+  assert (G : forall nmd, Inv (mkRouter (tree R1) (heap_set (heap R1) d (set_methods rt t')) (routes R1) nmd (hooks_idx R1)))
+    by (intros; now apply Inv_heap_set).
+  destruct name as [[|c nme]|]; simpl; try apply G.
+  destruct (al_get (named R1) (c :: nme)) as [d0|]; simpl; [|apply G].
+  destruct (negb ow && negb (Nat.eqb d0 d)); apply G.
+Qed.
+
+Lemma Inv_rt_remove_method R p fl ms : Inv R -> Inv (rt_remove_method R p fl ms).
+Proof.
+  intros HI. unfold rt_remove_method. destruct (rt_match R p fl) as [d|]; [|exact HI].
+  destruct (nth_error (heap R) d) as [rt|] eqn:E; [|exact HI]. now apply Inv_heap_set.
+Qed.
+
+(* scripts of registrations (well-formed: one filter per wildcard),
+   method removals and probes *)
+Definition add_cmd (c : cmd) : Prop :=
+  match c with
+  | CAdd _ p _ fl _ _ _ _ => ntok p = length fl
+  | CRemoveMethod _ _ _ | PDispatch _ _ _ | PByName _ | PByRule _ _ | PListing => True
+  | _ => False
+  end.
+
+Lemma Inv_step R c : Inv R -> add_cmd c -> Inv (fst (run_cmd R c)).
+Proof.
+  intros HI Hc. destruct c; simpl in *; try contradiction; try exact HI.
+  - pose proof (Inv_rt_add R rule pattern nm flts methods h name overwrite HI Hc) as G.
+    now destruct (rt_add R rule pattern nm flts methods h name overwrite).
+  - now apply Inv_rt_remove_method.
+Qed.
+
+Lemma Inv_exec cs : forall R, Inv R -> Forall add_cmd cs -> Inv (exec_cmds R cs).
+Proof.
+  unfold exec_cmds. induction cs as [|c cs IH]; intros R HI Hcs; simpl; [exact HI|].
+  inversion Hcs; subst. apply IH; auto. now apply Inv_step.
+Qed.
+
+(* ------------------------------------------------------------------ *)
+(* the registered rules, as the spec sees them                          *)
+(* ------------------------------------------------------------------ *)
+Definition rules_of (R : router) : list (pat * rid) :=
+  flat_map (fun pd => match nth_error (heap R) (snd pd) with
+                      | Some rt => [(pat_of (fst pd) (r_filters rt), snd pd)]
+                      | None => []
+                      end) (routes R).
+
+Lemma in_rules_of R q d :
+  In (q, d) (rules_of R) <->
+  exists p rt, In (p, d) (routes R) /\ nth_error (heap R) d = Some rt /\ q = pat_of p (r_filters rt).
+Proof.
+  unfold rules_of. rewrite in_flat_map. split.
+  - intros ([p d0] & Hin & H). simpl in H. destruct (nth_error (heap R) d0) as [rt|] eqn:E; [|destruct H].
+    destruct H as [[= <- <-]|[]]. eauto.
+  - intros (p & rt & Hin & E & ->). exists (p, d). split; [exact Hin|]. simpl. rewrite E. now left.
+Qed.
+
+Lemma in_hits {X} filt (rules : list (pat * X)) path q x vs :
+  In (q, x, vs) (hits filt rules path) <-> In (q, x) rules /\ match1 filt q path = Some vs.
+Proof.
+  unfold hits. rewrite in_flat_map. split.
+  - intros ([q0 x0] & Hin & H). simpl in H. destruct (match1 filt q0 path) as [vs0|] eqn:E; [|destruct H].
+    destruct H as [[= <- <- <-]|[]]. auto.
+  - intros (Hin & E). exists (q, x). split; [exact Hin|]. simpl. rewrite E. now left.
+Qed.
+
+Section Main.
+Variable filt : fid -> str -> option (value * nat).
+
+Theorem resolve_eq_spec_lemma : forall R path cds, Inv R ->
+  match spec filt (rules_of R) (strip_sep path) with
+  | None => exists vs hs i, resolve filt R path cds = R404 vs hs i
+  | Some (q, d, vs) =>
+    exists rt hs,
+      nth_error (heap R) d = Some rt /\ In (r_pattern rt, d) (routes R) /\
+      q = pat_of (r_pattern rt) (r_filters rt) /\
+      resolve filt R path cds =
+      match dispatch_on (r_methods rt) cds with
+      | DCall m (h, mn) => ROk d m h (make_params (match mn with [] => r_names rt | _ :: _ => mn end) vs) hs
+      | D405 a => R405 a
+      end
+  end.
+Proof.
+  intros R path cds [I1 I2 I3 I4]. set (sp := strip_sep path).
+  pose proof (get_at_sel filt (tree R) I1 sp 0) as Hsel.
+  unfold resolve, get. fold sp.
+  assert (Hfound : found_of (g_hook (nhooks (tree R)) 0 (get_at filt true (tree R) sp 0))
+                   = found_of (get_at filt true (tree R) sp 0)) by apply found_g_hook.
+  unfold sel_ok in Hsel.
+  destruct (g_hook (nhooks (tree R)) 0 (get_at filt true (tree R) sp 0)) as [d nm vs hs|vs hs i] eqn:Eg;
+    simpl in Hfound; rewrite <- Hfound in Hsel.
+  - (* a route was selected *)
+    destruct Hsel as (p0 & Hin & Hm & Hopt).
+    apply I2 in Hin. destruct Hin as (p & d0 & rt & A & B & C). unfold entry_of in C.
+    injection C as -> <- ->.
+    set (q := pat_of p (r_filters rt)).
+    assert (Hq : flat q = fpat p (r_filters rt)) by apply flat_pat_of.
+    assert (Hhit : In (q, d, vs) (hits filt (rules_of R) sp)).
+    { apply in_hits. split.
+      - apply in_rules_of. exists p, rt. split; [now apply al_get_in | auto].
+      - rewrite <- matchf_flat, Hq. exact Hm. }
+    assert (Hspec : spec filt (rules_of R) sp = Some (q, d, vs)).
+    { unfold spec. apply pick_unique_best; [exact Hhit|].
+      intros [[q' d'] vs'] Hin'. apply in_hits in Hin'. destruct Hin' as (Hr' & Hm').
+      apply in_rules_of in Hr'. destruct Hr' as (p' & rt' & Hin' & B' & ->).
+      apply (al_in_get _ _ _ I4) in Hin'.
+      assert (He' : In (entry_of p' d' rt') (paths (tree R))) by (apply I2; exists p', d', rt'; auto).
+      rewrite <- matchf_flat, flat_pat_of in Hm'.
+      destruct (Hopt _ _ He') as [E|E]; [now rewrite Hm'| |].
+      - left. apply fpat_inj in E. subst p'. assert (d' = d) by congruence. subst d'.
+        assert (rt' = rt) by congruence. subst rt'. fold q. f_equal.
+        rewrite Hm in Hm'. congruence.
+      - right. unfold hpat. simpl. now rewrite Hq, flat_pat_of. }
+    rewrite Hspec. destruct (I3 p d A) as (rt1 & B1 & C1 & _).
+    assert (rt1 = rt) by congruence. subst rt1.
+    exists rt, hs. split; [exact B|]. split; [rewrite C1; now apply al_get_in|].
+    split; [now rewrite C1|]. rewrite B.
+    destruct (dispatch_on (r_methods rt) cds) as [m [h mn]|a]; reflexivity.
+  - (* nothing matches *)
+    assert (Hspec : spec filt (rules_of R) sp = None).
+    { unfold spec. destruct (hits filt (rules_of R) sp) as [|[[q d] vs0] l] eqn:Eh; [reflexivity|]. exfalso.
+      assert (Hin : In (q, d, vs0) (hits filt (rules_of R) sp)) by (rewrite Eh; now left).
+      apply in_hits in Hin. destruct Hin as (Hr & Hm). apply in_rules_of in Hr.
+      destruct Hr as (p & rt & Hin & B & ->). apply (al_in_get _ _ _ I4) in Hin.
+      assert (He : In (entry_of p d rt) (paths (tree R))) by (apply I2; exists p, d, rt; auto).
+      rewrite <- matchf_flat, flat_pat_of in Hm. rewrite (Hsel _ _ He) in Hm. discriminate. }
+    rewrite Hspec. eauto.
+Qed.
+
+(* every value handed to a handler is what the corresponding wildcard of the
+   selected rule produced: a filtered wildcard's value is the first component
+   of a successful answer of ITS filter, a plain one's is path text up to the
+   next separator; and there are exactly as many values as wildcards *)
+Definition value_from (f : option fid) (v : value) : Prop :=
+  match f with
+  | Some k => exists s n, filt k s = Some (v, n)
+  | None => exists s, v = firstn (seg_len s) s
+  end.
+
+Lemma match1_values q : forall path vs,
+  match1 filt q path = Some vs -> Forall2 value_from (filters_of q) vs.
+Proof.
+  induction q as [|s q IH]; intros path vs; simpl.
+  - destruct path; [intros [= <-]; constructor | discriminate].
+  - destruct s as [t|f].
+    + destruct (prefixb t path); [apply IH | discriminate].
+    + destruct (wild_step filt f path) as [[v rest]|] eqn:Ew; [|discriminate].
+      destruct (match1 filt q rest) as [vs0|] eqn:Em; [|discriminate]. intros [= <-].
+      constructor; [|eapply IH; eauto].
+      unfold wild_step in Ew. destruct path as [|c r]; [discriminate|].
+      destruct f as [k|]; simpl.
+      * destruct (filt k (c :: r)) as [[v0 n]|] eqn:Ef; [|discriminate]. injection Ew as <- _.
+        exists (c :: r), n. exact Ef.
+      * injection Ew as <- _. exists (c :: r). reflexivity.
+Qed.
+
+End Main.
